@@ -435,6 +435,52 @@ def equiv_case(ctx, w):
     ctx.evaluations += n - 1
 
 
+def budget_case(ctx, case):
+    """call-budget boundary: the witness first spends s top-level calls under a call-stack limit L. Each lock needs the
+    nesting depth of its own CALL / EVAL instructions on the path taken (measured under a large limit); with at least
+    that much left it gives its normal verdict, native and non-native alike"""
+    from mc import monitor
+    L, path = case
+    seed = ctx.seed
+    ks = env.sym(seed, 'c5.K0')
+    pub = refed.public_key(ks)
+    sc = op('TRUE') + op('NOT') + op('NOT')      # no contract call: the monitor run has no contracts
+    sf = sigfields(seed, (1, 2))
+    S = T.Script.from_bytes(sc)
+    tail = T.make_taproot_witness_scriptspend(pub, S).bytes if path == 'script' else T.make_taproot_witness_keyspend(ks, dict(sf), S).bytes
+    locks = {'native': T.make_taproot_lock(pub, S).bytes, 'non-native': T.make_nonnative_taproot_lock(pub, S).bytes}
+    n = 0
+    for name, lk in locks.items():
+        mon, base = monitor.run_monitored_auth([tail, lk], (1024, 1024, 128), cache=dict(sf))
+        # whatever the bookkeeping inside bodies is, it charges at least the nesting depth and at most one unit per executed
+        # CALL / EVAL instruction: below the first the lock must fail, from the second on it must give its normal verdict
+        need_lo, need_hi = mon.max_depth, mon.calls_executed
+        if base is not True:
+            ctx.violation({'clause': 'builder witness unlocks its lock', 'lock': name, 'block': 'call budget'}, f'{path}: {base!r}')
+            continue
+        for spent in range(0, L + 1):
+            n += 1
+            w = op('DEF') + b'\x7f' + b'\x00\x00' + (op('CALL') + b'\x7f') * spent + tail
+            try:
+                v = F.run_auth_scripts([w, lk], dict(sf), callstack_limit=L)
+            except BaseException as e:
+                v = e
+            ctx.ran()
+            ctx.trans(2)
+            ctx.state(('budget', L, path, name, spent))
+            ctx.outcome('budget:%s' % v)
+            left = L - spent
+            want = True if left >= need_hi else False if left < need_lo else None
+            if want is None:
+                ctx.unspec('call budget between nesting depth and executed calls')
+            elif v is not want:
+                ctx.violation({'clause': 'verdict at the call-budget boundary', 'lock': name, 'path': path,
+                               'kind': 'accepts' if v is True else 'rejects'},
+                              f'{name} lock, {path} path, limit {L}, witness spent {spent}; the lock nests {need_lo} deep and executes '
+                              f'{need_hi} CALL/EVAL: {v!r}, expected {want}')
+    ctx.evaluations += max(n - 1, 0)
+
+
 def blocks(tier, seed):
     q = tier == 'quick'
     nk = 4 if q else 16
@@ -451,6 +497,8 @@ def blocks(tier, seed):
         Block('B2_sigfield_subsets', [tuple(i + 1 for i in range(8) if b >> i & 1) for b in range(256)], subset_case,
               'all 256 subsets of the eight sigfields x flags {00, 55, aa}: builder signature, key-path verdict, every present field changed',
               nshards=64),
+        Block('E3_call_budget_boundary', [(L, p) for L in (1, 2, 3, 5, 16) for p in ('script', 'key')], budget_case,
+              'call-stack limit L x witness spending 0..L top-level calls x script / key path x native / non-native', nshards=10),
         Block('E2_small_order_key_components', list(range(len(SMALL_ORDER))), torsion_case,
               'internal key P + T and T for all 7 non-trivial small-order points T, hand-made roots: native vs non-native', nshards=7),
         Block('C_script_path_corruptions', list(range(4 if q else 8)), script_case,
